@@ -535,7 +535,9 @@ PROPS['C03'] = {
     'scenarios': plus(world_scen(['default', 'force-inprocess'], 400, 8000),
                       lambda tier, seed: [{'args': ['crash', '--shape', str(i), '--tier', tier, '--only-stale', '1']} for i in ((1, 2, 4, 5) if tier == 'thorough' else (1, 2))],
                       lambda tier, seed: [{'build': b, 'args': ['timed', '--seed', str(seed + 2), '--n', str(1500 if tier == 'thorough' else 60), '--tier', tier]} for b in ('default', 'force-inprocess')],
-                      lambda tier, seed: [{'args': ['eofrace', '--tier', tier]}]),
+                      lambda tier, seed: [{'args': ['eofrace', '--tier', tier]}],
+                      # res-fd0: handles that live on descriptor 0 are closed like any other (disconnection follows); plus a few resource histories
+                      lambda tier, seed: [{'args': ['res', '--seed', str(seed + 9), '--n', '20', '--tier', 'quick']}]),
     'search': search_world,
     'rule': ('eofrace: ~200 000 channels whose sender queues one message and drops its handle at once while the receiver spins on try_recv / select — the message must be delivered '
              'before disconnection is reported (the kernel\'s end-of-file answer can overtake it; D16); timed scripts on the OS and in-process transports (the last sender dropped by a second thread while recv / try_recv_timeout is blocked: it must wake up with disconnected); '
@@ -728,7 +730,9 @@ PROPS['C05'] = {
     'theorems': ['C05.C05_contents', 'C05.C05_lifetime', 'C05.C05_zero', 'C05.C05_zero_reads_empty', 'C05.C05_order', 'C05.C05_shape',
                  'C05.size_is_length', 'Shm.inv_step', 'Shm.calls_step'],
     'builds': ['default', 'memfd', 'force-inprocess'],
-    'scenarios': plus(shm_scen(['default', 'memfd'], 300, 8000), world_scen(['force-inprocess'], 100, 2000)),
+    'scenarios': plus(shm_scen(['default', 'memfd'], 300, 8000), world_scen(['force-inprocess'], 100, 2000),
+                      # regions that arrived with a message whose sender died mid-send must not show up in the next message
+                      lambda tier, seed: [{'args': ['crash', '--shape', str(i), '--tier', tier]} for i in ((1, 2, 5) if tier == 'thorough' else (1,))]),
     'search': search_shm,
     'rule': ('shm (OS and memfd builds): seeded platform-level histories of 3..12 steps {from_bytes (seeded contents), from_byte, clone, send 1..3 regions in one message and '
              'receive them, drop} with lengths from {0, 1, 2, 7, page-1, page, page+1, 2 pages-1, 2 pages, 2 pages+1, 3 pages+5, 65537} or seeded <= 70000: the interposed '
